@@ -92,12 +92,15 @@ class Env:
         core.fresh_dir("c12")
         builtins._xv_draw_a = builtins._xv_draw_b = 0
         sc = self.sc
+        # (the farmer that harvested the earlier data is the one the crop is
+        # sown from: it holds that data in memory and is pickled with it)
+        far = sc.farmer(self.d)
         if sc.earlier:
-            sc.seed_earlier(self.d)
+            sc.seed_earlier(self.d, far)
         self.earlier_rows = []
         if sc.kind == "sampler" and sc.earlier:
             self.earlier_rows = sc.load_data(self.d)
-        crop = sc.new_crop(self.d)
+        crop = sc.new_crop(self.d, far=far)
         sc.sow(crop)
         self.B = crop.num_batches
         ids = list(range(1, self.B + 1))
